@@ -53,6 +53,7 @@ class Opaque:
 class E(enum.Enum):
     A = 1
     B = 2
+    C = 3  # a member that no input file and no default uses (value of an edit after loading)
 
 
 class Base:
